@@ -699,9 +699,6 @@ func (s *Sim) ParkedTasks() []*Task {
 		if t.Site == "lock.write" && s.writing[t.Inst] {
 			continue // would block on the write-commit mutex held by a parked task
 		}
-		if t.Site == "rewrite.lock" && s.rewriting[t.Inst] {
-			continue // would block on engine.mut held by a parked task
-		}
 		if t.waitLock != nil && len(s.holders(t.waitLock, t, t.waitWrite)) > 0 {
 			continue // would block on an instrumented lock held by another task
 		}
